@@ -70,7 +70,11 @@ def pick_ks(vec, rng, tier):
     if tier == "quick":
         n = (1 if rng.random() < 0.25 else 0) if bcrypt else 3
     else:
-        n = 3 if bcrypt else len(ks)
+        # every split point for a seeded third of the documents, six for the
+        # others (the spec establishes path independence for every mixture of
+        # partial runs; on the real code a deviation only interacts with the
+        # few steps that read its key)
+        n = 3 if bcrypt else (len(ks) if rng.random() < 0.34 else 6)
     if n == 0:
         return []
     if len(ks) <= n:
@@ -253,7 +257,8 @@ def run(ctx):
         "exhaustive_documents": "thorough: every single-deviation document and baseline is replayed, pair documents "
                                 "starting below schema 5 are a seeded sample of 600; quick: below schema 5 a seeded "
                                 "15 % of the documents whose deviation only steps >= 6 concern",
-        "split_points": "thorough: all k for documents starting at schema >= 5, 3 seeded k below; "
+        "split_points": "thorough: all k for a seeded third of the documents starting at schema >= 5 and 6 seeded k "
+                        "for the others, 3 seeded k below schema 5; "
                         "quick: 3 seeded k (one k for a quarter of the documents below schema 5)",
         "samples": samples,
     }
